@@ -360,6 +360,9 @@ int main(int argc, char **argv) {
   k3_mark('A', callno, "exit-close");
   do_close();
   k3_mark('Z', callno, "exit-close");
+#ifdef K3
+  printf("SITES %ld\n", k3calls);
+#endif
   if (g_cache) ldb_lru_destroy(g_cache);
   if (g_bloom) ldb_bloom_destroy(g_bloom);
   return 0;
